@@ -114,8 +114,15 @@ int main(int argc, char** argv) {
         int rstStep = 0;
         try {
             if (hasBase) {
-                write_run(dir, "BASE", fmt, unif, sc["base"]["n"], sc["base"]["steps"], "", 0);
-                tr.emit({{"e", "WriteBase"}, {"res", "ok"}, {"n", sc["base"]["n"]}, {"steps", sc["base"]["steps"]}});
+                // the base run may itself continue an earlier run (a chain of three)
+                const bool hasBase0 = sc.contains("base0") && !sc["base0"].is_null();
+                if (hasBase0) {
+                    write_run(dir, "BASE0", fmt, unif, sc["base0"]["n"], sc["base0"]["steps"], "", 0);
+                    tr.emit({{"e", "WriteBase0"}, {"res", "ok"}, {"n", sc["base0"]["n"]}, {"steps", sc["base0"]["steps"]}});
+                }
+                const int r0 = hasBase0 ? sc["base0"]["rstep"].get<int>() : 0;
+                write_run(dir, "BASE", fmt, unif, sc["base"]["n"], sc["base"]["steps"], hasBase0 ? "BASE0" : "", r0);
+                tr.emit({{"e", "WriteBase"}, {"res", "ok"}, {"n", sc["base"]["n"]}, {"steps", sc["base"]["steps"]}, {"rstep0", r0}});
                 rstRoot = "BASE";
                 rstStep = sc["base"]["rstep"];
             }
@@ -141,6 +148,7 @@ int main(int argc, char** argv) {
             } catch (const std::exception& e) { tr.emit({{"e", "Read"}, {"reader", "esmry-all"}, {"withBase", withBase}, {"res", "error"}, {"what", e.what()}}); }
         }
         try {       // SMSPEC -> ESMRY conversion and the ESMRY reader
+            if (hasBase && sc.contains("base0") && !sc["base0"].is_null()) { Opm::EclIO::ESmry b(dir + "/BASE0." + (fmt ? "FSMSPEC" : "SMSPEC"), false); b.make_esmry_file(); }
             if (hasBase) { Opm::EclIO::ESmry b(dir + "/BASE." + (fmt ? "FSMSPEC" : "SMSPEC"), false); b.make_esmry_file(); }
             { Opm::EclIO::ESmry r(smspec, false); r.make_esmry_file(); }
             for (bool withBase : {false, true}) {
